@@ -211,7 +211,7 @@ func (t *fnTr) stmt(s ast.Stmt, k func() string) string {
 		if out, ok := t.fieldAssign(x, k); ok {
 			return out
 		}
-		if _, isSel := x.Lhs[0].(*ast.SelectorExpr); isSel && x.Tok == token.ASSIGN {
+		if _, isSel := x.Lhs[0].(*ast.SelectorExpr); (isSel || t.isDerefTarget(x.Lhs[0])) && x.Tok == token.ASSIGN {
 			if p, ok := t.fieldPath(x.Lhs[0]); ok {
 				if out, ok := t.stmtCall(x.Rhs[0], []ast.Expr{x.Lhs[0]}, x.Tok, k); ok {
 					return out
